@@ -23,7 +23,8 @@ META = {
     "note": "Trusted: TLC; the perfect-cipher algebra (C06 removes it); the reading of ISO 32000-2 7.6 in IsoSubject/IsoMethod; the harness's own "
             "canonical forms of passwords (PDFDocEncoding/32 bytes, UTF-8/127 bytes on alphabets where SASLprep is the identity). Exhaustive only "
             "within the model bounds; beyond that sampled. Not decided: cryptographic strength, permissions, acceptance of merely equivalent "
-            "passwords, decrypt_raw called directly, V2 key lengths that are not a multiple of 8 (not a supported key length: ISO 32000 and lopdf's "
+            "passwords, decrypt_raw called directly, signature /Contents and a direct /Encrypt dictionary (C06), the calls SaveRev / SaveInc in the "
+            "model checker (judged and driven in recorded runs only; the impl-shaped layer has no multi-revision file),  V2 key lengths that are not a multiple of 8 (not a supported key length: ISO 32000 and lopdf's "
             "own reader refuse them; EncryptionVersion::V2 accepts them and the result cannot be decrypted - proposed_fixes/C05-v2-key-length-check.diff), "
             " edits that delete or add objects (a deleted object-stream member comes back on decrypt: "
             "lopdf issue 160, outside the statement), encrypted files with object streams written by other producers (C06).",
@@ -275,12 +276,34 @@ def v2(t):
     t[0]["cfg"].update(V=2, R=3, klen=128, cf=[], stmf="", strf="")
 
 
+def synth_foreign():
+    """hand-written runs with the calls SaveRev / SaveInc in which lopdf's present answers are written down"""
+    base = synth_trace()
+    reset, mk, enc_ev, load, dec = base[0], base[1], base[2], base[6], base[7]
+    plain, enc = mk["items"], enc_ev["items"]
+
+    def ev(src, **kw):
+        e = copy.deepcopy(src)
+        e.update(kw)
+        return e
+    stale = copy.deepcopy(plain)
+    stale[1]["eq"] = False      # the object-stream member (osm) comes back with the value of the first revision
+    rev = [reset, mk, ev(mk, call="SaveRev"), ev(load, items=enc), ev(dec, items=stale)]
+    r2 = copy.deepcopy(reset)
+    r2["cfg"]["e"] = {"u": "same", "o": "diff", "ud": True, "od": False, "rep": True}     # empty user password
+    inc = [r2, mk, enc_ev, base[5], ev(base[5], call="SaveInc"), ev(load, tenc=False, nobj=2, items=enc, same=False)]
+    return [("objstm.revision.stale", rev), ("incremental.encrypt.dropped", inc)]
+
+
 def negative_controls(chk, w):
     base = synth_trace()
     evs = list(base)
     for tag, mut in NEGATIVES:
         t = copy.deepcopy(base)
         mut(t)
+        evs += t
+    extra = synth_foreign()
+    for tag, t in extra:
         evs += t
     p = os.path.join(w, "neg.ndjson")
     write_ndjson(p, evs)
@@ -296,7 +319,16 @@ def negative_controls(chk, w):
         if tag not in got:
             raise vlib.ToolError("negative control %d: expected %s, validator said %s" % (k, tag, sorted(got)))
         rejected += 1
-    chk.extra["negative_controls"] = len(NEGATIVES)
+    pos = n * (len(NEGATIVES) + 1)
+    for tag, t in extra:
+        got = set()
+        for v in vs[pos: pos + len(t)]:
+            got |= {x for x in v["tags"] if not x.startswith("ok")}
+        pos += len(t)
+        if got != {tag}:
+            raise vlib.ToolError("negative control (%s): validator said %s" % (tag, sorted(got)))
+        rejected += 1
+    chk.extra["negative_controls"] = len(NEGATIVES) + len(extra)
     chk.extra["negative_controls_rejected"] = rejected
 
 
@@ -485,6 +517,21 @@ def run(tier):
             cs = [ord(ch) < 256 for ch in map(chr, reset[nm])]
             if c0["R"] <= 4 and any(cs) and not all(cs):
                 itemcls.add("pw.mixed")
+        saved_enc = tenc = False
+        for i, c in enumerate(calls):
+            if c["call"] == "SaveRev" and c["res"] == "Ok" and i + 1 < len(calls) and calls[i + 1]["call"] == "Load":
+                itemcls.add("two-revision.objstm.file.loaded")
+                if "same" in (c0["e"]["u"], c0["e"]["o"]):
+                    itemcls.add("two-revision.objstm.file.autodecrypt")
+                if any(d["call"] == "Decrypt" and "same" in (d["rel"]["u"], d["rel"]["o"]) for d in calls[i + 2:]):
+                    itemcls.add("two-revision.objstm.file.decrypt")
+            if c["call"] == "Save":
+                saved_enc = tenc
+            if c["call"] == "SaveInc" and saved_enc and i + 1 < len(calls) and calls[i + 1]["call"] == "Load":
+                itemcls.add("incremental.update.of.encrypted.file")
+                if "same" in (c0["e"]["u"], c0["e"]["o"]):
+                    itemcls.add("incremental.update.of.encrypted.file.emptypw")
+            tenc = c["tenc"]
         cur, was_dec = c0, False
         for c in calls:
             if c["call"] in ("Decrypt", "AuthUser", "AuthOwner", "Auth") and cur["R"] <= 4 and not c["rel"]["rep"] \
@@ -539,7 +586,8 @@ def run(tier):
     missing = (need - cfgs) | ({"empty", "ascii", "non-latin", "gt32", "gt127", "owner=user"} - pws) | \
               ({"streamdict", "metadata", "crypt.name", "crypt.arr", "crypt.nodp", "crypt.noname", "empty.str", "empty.stream", "long.str", "long.stream",
                 "pw.user.unencodable", "pw.owner.unencodable", "pw.emoji", "pw.mixed", "offer.differs.in.unencodable",
-                "rekey.V4+.to.V2-", "crypt.entry.belowV4", "metadata.dict.string.em=True", "metadata.dict.string.em=False",
+                "rekey.V4+.to.V2-", "crypt.entry.belowV4", "two-revision.objstm.file.loaded", "two-revision.objstm.file.autodecrypt",
+                "two-revision.objstm.file.decrypt", "incremental.update.of.encrypted.file", "incremental.update.of.encrypted.file.emptypw", "metadata.dict.string.em=True", "metadata.dict.string.em=False",
                 "prep.mem", "prep.file-objstm", "prep.file-xrefstm", "objstm.container", "objstm.member", "edit", "member.edit.roundtrip"} - itemcls)
     if missing:
         raise vlib.ToolError("vacuous trace set: classes never recorded: %s" % sorted(missing))
